@@ -662,6 +662,13 @@ pub(crate) mod verif {
         (e.line, kind, found, max, e.is_comment, e.is_string)
     }
 
+    /// `apply_newline_style` (formatting/newline_style.rs) on a given buffer.
+    pub(crate) fn apply_newline(style: crate::NewlineStyle, formatted: &str, raw: &str) -> String {
+        let mut buf = formatted.to_owned();
+        apply_newline_style(style, &mut buf, raw);
+        buf
+    }
+
     /// `format_lines` on a given buffer.
     pub(crate) fn run_format_lines(
         text: &mut String,
